@@ -121,6 +121,83 @@ def oracle(ctx, rng, n):
             ctx.count("builtin_tables_evaluated")
 
 
+EXPRS = ["1 + 6.0 / dT", "1.0 + 0.001 * dT", "1 + 2.0 / (dT + 10.0)", "1.02 + dT / 5000", "max(1.0, 1.2 - dT / 400)"]
+
+
+def oracle_expressions(ctx, rng, n):
+    """user tables whose subfactors are expressions in dT - the SAME text in several columns and rows, in the cladding column (which
+    is split into two rises), mixed with numbers: the factor applied to a column must be the expression evaluated with THAT
+    column's temperature rise of THAT assembly.  Expected values: the same table with hand-evaluated numbers."""
+    from dassh import hotspot
+    d = ctx.work / "hcfexpr"
+    os.makedirs(d, exist_ok=True)
+    cols_all = ['Coolant', 'Film', 'Cladding', 'Gap', 'Fuel']
+    for ci in range(n):
+        region = rng.choice(['clad_od', 'clad_mw', 'clad_id', 'fuel_od', 'fuel_cl'])
+        ncols = 5 if region.startswith('fuel') or rng.random() < 0.3 else 3
+        nrows = rng.randint(2, 6)
+        pool = rng.sample(EXPRS, rng.randint(1, 3))
+        rows = []
+        for r_ in range(nrows):
+            typ = rng.choice(['Direct', 'Statistical'])
+            vals = [rng.choice(pool) if rng.random() < 0.55 else repr(round(rng.uniform(1.0, 1.2), 4)) for _ in range(ncols)]
+            rows.append(("sf%d" % r_, typ, vals))
+        if not any(t == 'Direct' for _, t, _ in rows):
+            rows[0] = (rows[0][0], 'Direct', rows[0][2])
+        if not any(t == 'Statistical' for _, t, _ in rows):
+            rows[-1] = (rows[-1][0], 'Statistical', rows[-1][2])
+        path = str(d / ("t%d.csv" % ci))
+        with open(path, "w") as f:
+            f.write(",".join(['Subfactor', 'Type'] + cols_all[:ncols]) + "\n")
+            for name, typ, vals in rows:
+                f.write(",".join([name, typ] + vals) + "\n")
+        n_terms = {'clad_od': 2, 'clad_mw': 3, 'clad_id': 4, 'fuel_od': 5, 'fuel_cl': 6}[region]
+        split = region in ('clad_id', 'fuel_od', 'fuel_cl')
+        n_asm = rng.randint(1, 4)
+        dT = np.array([[rng.uniform(5, 150) for _ in range(n_terms)] for _ in range(n_asm)])
+        try:
+            subf, expr = hotspot._read_hcf_table(path, hotspot._COLS_NEEDED[region])
+            if split:
+                subf, expr = hotspot._split_clad_subfactors(subf, expr)
+            sf = hotspot._evaluate_hcf_expr(subf, expr, dT)
+        except SystemExit:
+            ctx.count("expression_tables_rejected")
+            continue
+        except Exception as ex:
+            ctx.evals += 1
+            ctx.violation("c19-expression-table-crash:%s" % type(ex).__name__, "a subfactor table with dT expressions cannot be used for "
+                          "the hot-spot temperature %s (%d rises): %r - an expression stands in a column this location does not use"
+                          % (region, n_terms, ex), table=open(path).read(), region=region,
+                          call="hotspot._read_hcf_table / _split_clad_subfactors / _evaluate_hcf_expr as in hotspot.analyze")
+            continue
+        for typ_ in sf:
+            sf[typ_] = sf[typ_][:, :, :dT.shape[1]]          # as hotspot.analyze does
+        ctx.evals += 1
+        ctx.count("expression_tables")
+        # expected: column j of the (split) table belongs to rise j; its source column in the file
+        src = (lambda j: j if j < 3 else j - 1) if split else (lambda j: j)
+        for typ in ('Direct', 'Statistical'):
+            mine = [vals for _, t, vals in rows if t == typ]
+            got = np.asarray(sf[typ.lower()], dtype=float)
+            for a in range(n_asm):
+                for r_, vals in enumerate(mine):
+                    for j in range(min(n_terms, got.shape[2])):
+                        if src(j) >= len(vals):
+                            continue
+                        txt = vals[src(j)]
+                        try:
+                            want = float(txt)
+                        except ValueError:
+                            want = float(eval(txt, {"__builtins__": {}, "max": max, "min": min}, {"dT": float(dT[a, j])}))
+                        if abs(got[a, r_, j] - want) > 1e-12 * max(1.0, abs(want)):
+                            ctx.violation("c19-expression-column", "subfactor table with expressions (%s): assembly %d, %s row %d, rise %d "
+                                          "(file column %s, entry %r, rise %.6g K): factor %.9g applied, %.9g expected - the expression "
+                                          "was evaluated with another rise" % (region, a, typ, r_, j, cols_all[src(j)], txt,
+                                                                               dT[a, j], got[a, r_, j], want),
+                                          table=open(path).read(), dT=dT.tolist(), region=region)
+                            return
+
+
 UNITY = "Subfactor,Type,Coolant,Film,Cladding\nPower,Direct,1,1,1\nFlow,Direct,1.0,1,1\nProperties,Statistical,1,1,1\nFilm HTC,Statistical,1,1.0,1\n"
 SKEWED = "Subfactor,Type,Coolant,Film,Cladding\nPower,Direct,1.05,1.02,1.02\nFlow,Direct,1.03,1,1\nProperties,Statistical,1.02,1.1,1.05\nFilm HTC,Statistical,1,1.12,1\n"
 _IDX = {'clad_od': 5, 'clad_mw': 6, 'clad_id': 7, 'fuel_od': 8, 'fuel_cl': 9}
@@ -176,7 +253,18 @@ def oracle_analyze(ctx, rng, n):
             shutil.rmtree(d, ignore_errors=True)
             continue
         ctx.evals += 1
-        out = hotspot.analyze(r)
+        unused = [tn for tn in names if not any(a.name == tn for a in r.assemblies)]
+        if unused:
+            ctx.count("analyze_cases_with_an_unassigned_type")
+        try:
+            out = hotspot.analyze(r)
+        except Exception as ex:
+            ctx.violation("c19-analyze-crash:%s%s" % (type(ex).__name__, ":unassigned-type" if unused else ""),
+                          "hotspot.analyze fails after the sweep with %r%s" % (ex, (" - the assembly type(s) %s request a hot spot but are "
+                                                                                 "assigned to no position" % unused) if unused else ""),
+                          case=case, unassigned_types=unused)
+            shutil.rmtree(d, ignore_errors=True)
+            continue
         if out is None or where not in out[0]:
             ctx.violation("c19-analyze-missing", "hotspot.analyze returns nothing for the requested location %s" % where, case=case)
             shutil.rmtree(d, ignore_errors=True)
@@ -284,6 +372,7 @@ def run(ctx):
     if ok:
         ctx.prove("Dassh.Props.C19")
     oracle(ctx, rng, 400 if ctx.thorough else 80)
+    oracle_expressions(ctx, rng, 200 if ctx.thorough else 40)
     oracle_analyze(ctx, rng, 12 if ctx.thorough else 4)
     ctx.prove("Dassh.Props.C19Sort")
     sort_correspondence(ctx, rng, 200 if ctx.thorough else 60)
